@@ -66,7 +66,14 @@ def build():
     C.cls("Playfield", file=PF, bases=["SystemWideDevice"], fields=dict(
         _balls=Int, available_balls=Int, num_balls_requested=Int, name=Str, ball_search=ObjS("BallSearch"),
         machine=ObjS("MachineController", events=ObjS("EventManager"), ball_controller=ObjS("BallController")),
-        config=Rec(default_source_device=Opt(ObjS("BallDeviceI"))), unit_test=Bool))
+        config=Rec(default_source_device=Opt(ObjS("BallDeviceI"))), unit_test=Bool,
+        _incoming_balls=Init(lambda I, name: I.new_list(
+            [VObj(Obj("IncomingBallI", ObjS("IncomingBallI", can_arrive=Bool), "%s[%d]" % (name, i)))
+             for i in range(I.ctx.fork(3))], name))))
+    C.cls("IncomingBallI", fields=dict(can_arrive=Bool))
+    C.ext("IncomingBallI.ball_arrived", model=lambda I, env, a, k: (emit(I, "incoming.ball_arrived", ball=env["self"].ref), NONE)[1],
+          trusted_reason="IncomingBall.ball_arrived: confirms the eject that sent it")
+    C.helpers["n_confirmed"] = lambda I: VInt(len(events_named(I, "incoming.ball_arrived")))
 
     def word(I, *names):
         this = I.frames[0].env["self"].ref
@@ -91,7 +98,7 @@ def build():
     C.helpers["n_captured"] = lambda I: VInt(len(events_named(I, "add_captured_ball")))
     C.helpers["n_ejects"] = lambda I: VInt(len(events_named(I, "eject")))
     C.helpers["n_player_ejects"] = lambda I: VInt(len(events_named(I, "player_eject")))
-    C.trace_helpers = {"posts_named", "n_posts", "post_kw", "n_captured", "n_ejects", "n_player_ejects",
+    C.trace_helpers = {"posts_named", "n_posts", "post_kw", "n_captured", "n_ejects", "n_player_ejects", "n_confirmed",
                        "n_arrivals", "n_change_events", "n_lock", "n_unlock", "n_incoming_start", "n_incoming_end"}
     SEARCH = ("ball search runs exactly while balls are on the playfield", "self.ball_search.enabled == (self._balls > 0)")
     C.fn("Playfield.balls", is_property=True, inline=True, no_inv=True)
@@ -129,6 +136,11 @@ def build():
                   ("P4: no count is ever negative", "implies(old(self._balls) >= 0, self._balls >= 0)"),
                   SEARCH],
          modifies=["self._balls", "self.available_balls", "self.ball_search.enabled"], raises={})
+    C.fn("Playfield.ball_arrived", loops={0: LoopSpec(invariant=[], unroll=True)},
+         ensures=[("P9: a playfield activation confirms at most ONE incoming ball - the first that can have arrived - "
+                   "and changes no count by itself", "n_confirmed() <= 1 and self._balls == old(self._balls) and "
+                   "self.available_balls == old(self.available_balls)")],
+         modifies=[], raises={}, bounded="BOUNDED: at most 2 incoming balls", inline_calls=True)
     for fn_, delta, what in (("_source_device_ejecting_ball", "+ balls", "an eject towards the playfield is announced: "
                               "n more balls are requested"),
                              ("_source_device_eject_failed", "- balls", "a failed eject takes its n balls back out of "
